@@ -445,6 +445,126 @@ pub fn write_bg_singlethreaded(
     Ok(())
 }
 
+/// `bigbedtobed --zoom N` (summary rows of a zoom level instead of records): NOT part of C16.  The whole
+/// `if let Some(zoom) = zoom { .. }` branch of write_bed_singlethreaded is replaced by a call of this stub
+/// (nothing promised except that the reader still serves the same file).
+#[verifier::external_body]
+pub fn zoom_mode(bigbed: &mut Reader<BedEntry>, writer: &mut Out, chroms: Vec<ChromInfo>, start: Option<u32>, end: Option<u32>, zoom: u32) -> (r: Result<(), AnyErr>)
+    ensures final(bigbed).file() == old(bigbed).file() && final(bigbed).table() == old(bigbed).table(),
+{ unimplemented!() }
+#[verifier::loop_isolation(false)]
+pub fn write_bed_singlethreaded(
+    bigbed: &mut Reader<BedEntry>,
+    out_file: &mut Out,
+    chrom: Option<Name>,
+    start: Option<u32>,
+    end: Option<u32>,
+    zoom: Option<u32>,
+) -> (r: Result<(), AnyErr>)
+    ensures
+        
+        final(bigbed).file() == old(bigbed).file() && final(bigbed).table() == old(bigbed).table(),
+        
+        zoom is None && wanted(old(bigbed).table(), chrom) is None ==> r is Ok && final(out_file).lines() == old(out_file).lines()
+            && final(bigbed).queries() == old(bigbed).queries(),
+        
+        zoom is None ==> (wanted(old(bigbed).table(), chrom) matches Some(cs) ==> (r is Ok ==>
+            final(bigbed).queries() == old(bigbed).queries() + all_queries(cs, cs.len() as int, eff(chrom, start), eff(chrom, end)))),
+        
+        zoom is None ==> (wanted(old(bigbed).table(), chrom) matches Some(cs) ==> (r is Ok ==>
+            final(out_file).lines() == old(out_file).lines() + all_text::<BedEntry>(old(bigbed).file(), cs, cs.len() as int, eff(chrom, start), eff(chrom, end)))),
+        
+        zoom is None ==> (wanted(old(bigbed).table(), chrom) matches Some(cs) ==> (r is Ok ==>
+            all_clean::<BedEntry>(old(bigbed).file(), cs, cs.len() as int, eff(chrom, start), eff(chrom, end)))),
+{
+    let ghost chrom0 = chrom;
+    let ghost start0 = start;
+    let ghost end0 = end;
+    let ghost f0 = bigbed.file();
+    let ghost q0 = bigbed.queries();
+    let ghost l0 = out_file.lines();
+
+    let start = (match chrom.as_ref() { Some(_) => start, None => None });
+    let end = (match chrom.as_ref() { Some(_) => end, None => None });
+
+    let chroms: Vec<ChromInfo> = if let Some(arg_chrom) = chrom {
+        let chrom = find_chrom(bigbed.chroms(), &arg_chrom);
+        let Some(chrom) = chrom else {
+            eprintln!("Error: {arg_chrom} not found in file.");
+            return Ok(());
+        };
+        vec![chrom.clone()]
+    } else {
+        bigbed.chroms().to_vec()
+    };
+
+    let ghost s_ = start;
+    let ghost e_ = end;
+    assert(s_ == eff(chrom0, start0) && e_ == eff(chrom0, end0)); 
+    assert(wanted(bigbed.table(), chrom0) == Some(chroms@)); 
+    let mut writer = io::BufWriter::with_capacity(32 * 1000, out_file);
+    let mut buf: Buf = Buf::with_capacity(50); // Estimate
+    if let Some(zoom) = zoom {
+        return zoom_mode(bigbed, writer, chroms, start, end, zoom);
+    } else {
+        for i__1 in 0..chroms.len() 
+        invariant
+            
+            bigbed.file() == f0, bigbed.table() == old(bigbed).table(), s_ == start, e_ == end,
+            wanted(old(bigbed).table(), chrom0) == Some(chroms@),
+            
+            buf.text() == Seq::<Piece>::empty(),
+            
+            writer.lines() == l0 + all_text::<BedEntry>(f0, chroms@, i__1 as int, s_, e_),
+            
+            bigbed.queries() == q0 + all_queries(chroms@, i__1 as int, s_, e_),
+            
+            all_clean::<BedEntry>(f0, chroms@, i__1 as int, s_, e_),
+{ let chrom = &chroms[i__1];
+            let start = start.unwrap_or(0);
+            let end = end.unwrap_or(chrom.length);
+            let mut values = bigbed.get_interval(&chrom.name, start, end)?; loop 
+            invariant
+                
+                0 <= i__1 < chroms@.len(), *chrom == chroms@[i__1 as int],
+                bigbed.file() == f0, bigbed.table() == old(bigbed).table(), wanted(old(bigbed).table(), chrom0) == Some(chroms@),
+                
+                bigbed.queries() == q0 + all_queries(chroms@, i__1 as int, s_, e_).push(chrom_query(*chrom, s_, e_)),
+                
+                chrom_answer::<BedEntry>(f0, *chrom, s_, e_) == Ok::<Seq<Result<BedEntry, BBIReadError>>, BBIReadError>(values.all()),
+                values.pos() <= values.all().len(),
+                
+                buf.text() == Seq::<Piece>::empty(),
+                
+                writer.lines() == l0 + all_text::<BedEntry>(f0, chroms@, i__1 as int, s_, e_) + lines_of(chrom.name, values.all(), values.pos() as int),
+                
+                items_ok(values.all(), values.pos() as int),
+            decreases
+                
+                values.all().len() - values.pos(),
+{ let raw_val = match values.next() { Some(x__) => x__, None => break };
+                let val = raw_val?;
+                if !val.rest.is_empty() {
+                    uwrite!(
+                        &mut buf,
+                        "{}\t{}\t{}\t{}\n",
+                        chrom.name,
+                        val.start,
+                        val.end,
+                        val.rest
+                    )
+                    .unwrap();
+                } else {
+                    uwrite!(&mut buf, "{}\t{}\t{}\n", chrom.name, val.start, val.end).unwrap();
+                };
+                writer.write(buf.as_bytes())?;
+                buf.clear();
+            }
+        }
+    }
+    Ok(())
+}
+
 } // verus!
 fn main() {}
 
